@@ -445,13 +445,31 @@ func runAppendOnly(c *core.Ctx) []core.Obligation {
 								v = sl.X
 							}
 						}
-						if root(dstArg) == root(e) && a.v[srcArg] {
+						// the new buffer must be sized from the destination: one sized from the
+						// value alone truncates a longer prefix in the copy
+						sizedFromDst := true
+						if ms, isMake := root(e).(*ssa.MakeSlice); isMake {
+							sizedFromDst = false
+							for _, sz := range []ssa.Value{ms.Len, ms.Cap} {
+								if sz != nil && dependsOn(sz, func(x ssa.Value) bool {
+									call, ok := x.(*ssa.Call)
+									if !ok {
+										return false
+									}
+									bi, isB := call.Common().Value.(*ssa.Builtin)
+									return isB && (bi.Name() == "len" || bi.Name() == "cap") && len(call.Common().Args) == 1 && a.v[call.Common().Args[0]]
+								}) {
+									sizedFromDst = true
+								}
+							}
+						}
+						if root(dstArg) == root(e) && a.v[srcArg] && sizedFromDst {
 							copied = true
 						}
 					}
 					if !copied {
 						any = true
-						b.bad(mk("replace"), c.InstrPos(phi), fmt.Sprintf("%s continues with %s in place of the destination on some path, without copying the destination's bytes into it: everything the caller had in b[:len(b)] comes back as zero bytes (only when the path is taken — a full buffer, a size threshold)", name, describeValue(e)))
+						b.bad(mk("replace"), c.InstrPos(phi), fmt.Sprintf("%s continues with %s in place of the destination on some path, without copying the destination's bytes into it (or copying them into a buffer whose size does not derive from the destination's length: a longer prefix is cut): everything the caller had in b[:len(b)] comes back as zero bytes (only when the path is taken — a full buffer, a size threshold)", name, describeValue(e)))
 					}
 				}
 			}
